@@ -152,6 +152,35 @@ ClassRep(br, ref, keep, n) == LET c == ShortClass(br, keep, n) IN IF ref \in c T
 ContractShorts(br, ref, keep) ==
     DropLoops([i \in DOMAIN br |-> [br[i] EXCEPT !.n1 = ClassRep(br, ref, keep, @), !.n2 = ClassRep(br, ref, keep, @)]])
 
+\* The set of results a contraction of the non-exempt shorts of 'pre' may return, as a predicate on a
+\* candidate 'out' (a sequence of branches): surviving branches are a subsequence of pre with identical
+\* elements and orientation, their terminals renamed by ONE node map that only merges nodes joined by
+\* non-exempt shorts, and only branches whose terminals are so joined may disappear.  Which label a merged
+\* node keeps is free, except that the reference keeps its own.
+SameElemE(e1, e2) == e1.f = e2.f /\ e1.imm = e2.imm /\ e1.src = e2.src
+OutIdx(out, id) == CHOOSE j \in DOMAIN out : out[j].id = id
+ContractionWhy(pre, ref, K, out) ==
+   LET outIds == {out[j].id : j \in DOMAIN out}
+       surv   == {i \in DOMAIN pre : pre[i].id \in outIds}
+       pairs  == {<<pre[i].n1, out[OutIdx(out, pre[i].id)].n1>> : i \in surv} \cup {<<pre[i].n2, out[OutIdx(out, pre[i].id)].n2>> : i \in surv}
+   IN IF Cardinality(outIds) # Len(out) \/ ~(outIds \subseteq Ids(pre)) THEN "ids"
+      ELSE IF \E i, j \in surv : i < j /\ OutIdx(out, pre[i].id) > OutIdx(out, pre[j].id) THEN "order"
+      ELSE IF \E i \in surv : ~SameElemE(out[OutIdx(out, pre[i].id)].e, pre[i].e) THEN "element_changed"
+      ELSE IF \E p, q \in pairs : p[1] = q[1] /\ p[2] # q[2] THEN "node_map_not_a_function"
+      ELSE IF \E p \in pairs : p[2] \notin ShortClass(pre, K, p[1]) THEN "merged_nodes_not_joined_by_shorts"
+      ELSE IF \E p \in pairs : p[1] = ref /\ p[2] # ref THEN "reference_label_lost"
+      ELSE IF \E i \in DOMAIN pre \ surv : pre[i].n2 \notin ShortClass(pre, K, pre[i].n1) THEN "branch_dropped"
+      ELSE "ok"
+\* node map of an allowed contraction (only defined where a surviving branch fixes it)
+ContractionMap(pre, out) == LET outIds == {out[j].id : j \in DOMAIN out} surv == {i \in DOMAIN pre : pre[i].id \in outIds} IN
+   {<<pre[i].n1, out[OutIdx(out, pre[i].id)].n1>> : i \in surv} \cup {<<pre[i].n2, out[OutIdx(out, pre[i].id)].n2>> : i \in surv}
+\* electrical identity: same voltage / flow on survivors, same potential on mapped nodes
+SameOnSurvivorsWhy(pre, ref, s0, out, s2) ==
+   IF \E j \in DOMAIN out : LET i == CHOOSE k \in DOMAIN pre : pre[k].id = out[j].id IN
+          U(out, ref, s2, j) # U(pre, ref, s0, i) \/ Flow(out, ref, s2, j) # Flow(pre, ref, s0, i) THEN "solution_changed_on_branch"
+   ELSE IF \E p \in ContractionMap(pre, out) : Phi(out, ref, s2, p[2]) # Phi(pre, ref, s0, p[1]) THEN "solution_changed_on_node"
+   ELSE "ok"
+
 \* ------------------------------------------------------------- port behaviour
 \* every independent source deactivated: ideal V -> short, current source -> open,
 \* internal immittances kept
